@@ -12,6 +12,12 @@ fn main() {
 }
 
 pub fn gen(rng: &mut Rng, idx: usize, n: usize, thorough: bool) -> String {
+    // SDD apply / ite caches: a program whose every operation is executed twice in a row
+    if idx % 6 == 1 {
+        use rsdd_verif_harness::bddprog::*;
+        let o = GenOpts { max_vars: if thorough { 6 } else { 5 }, max_ops: if thorough { 24 } else { 14 }, new_vars: false, small_tables: false };
+        return format!("S {}", gen_prog(rng, idx, n, &o));
+    }
     // builder level: every third case is a BDD program, run under every cache configuration
     if idx % 3 == 2 {
         use rsdd_verif_harness::bddprog::*;
@@ -74,7 +80,43 @@ fn run_builder_level(case: &str, st: &mut Stats) -> Outcome {
     Outcome { result: lines[0].1.clone(), fails, nontrivial: base.ops.len() > 6 }
 }
 
+/// SDD builder: executing an operation a second time (answered from the apply / ite caches) must
+/// return the pointer-equal result, and both must denote the specified function
+fn run_sdd_level(case: &str, st: &mut Stats) -> Outcome {
+    use rsdd::builder::sdd::CompressionSddBuilder;
+    use rsdd::builder::BottomUpBuilder;
+    use rsdd_verif_harness::bddprog::*;
+    use rsdd_verif_harness::sddprog::*;
+    let prog = parse(case);
+    let spec = spec_tables(&prog);
+    let total = prog.total_vars();
+    let mut lrng = Rng::new(case.len() as u64 * 31 + total as u64);
+    let mut fails = vec![];
+    for round in 0..2 {
+        let vars = if round == 0 { (0..total).collect::<Vec<_>>() } else { lrng.perm(total) };
+        let vt = if round == 0 { rsdd::repr::VTree::right_linear(&vars.iter().map(|v| rsdd::repr::VarLabel::new(*v as u64)).collect::<Vec<_>>()) } else { rand_vtree(&mut lrng, &vars) };
+        let b = CompressionSddBuilder::new(vt);
+        if let Some((first, again)) = exec_sdd_twice(&b, &prog) {
+            for k in 0..first.len() {
+                if !b.eq(first[k], again[k]) {
+                    fails.push(format!("SDD operation {k} ({:?}) repeated on the same builder (answered from the caches) returns a different diagram", prog.ops[k]));
+                }
+                for (which, p) in [("first", first[k]), ("repeated", again[k])] {
+                    if (0..(1usize << total)).any(|a| sdd_eval(p, a) != spec[k][a]) {
+                        fails.push(format!("SDD operation {k} ({:?}), {which} execution, denotes the wrong function", prog.ops[k]));
+                    }
+                }
+            }
+        }
+    }
+    st.bump("sdd_cache_programs");
+    Outcome { result: "sdd".to_string(), fails, nontrivial: prog.ops.len() > 6 }
+}
+
 pub fn run(case: &str, st: &mut Stats) -> Outcome {
+    if let Some(rest) = case.strip_prefix("S ") {
+        return run_sdd_level(rest, st);
+    }
     if let Some(rest) = case.strip_prefix("P ") {
         return run_builder_level(rest, st);
     }
